@@ -53,7 +53,7 @@ CONFIGS = {
 ORD_ANYKEY = ["plain", "nullproto", "func", "arrow", "bound", "cls", "method", "err", "date", "regexp", "map", "promise",
               "gen", "numobj", "objproto", "math", "math2", "json"]
 NONINDEX = ["array", "array3", "sparse", "args", "sargs", "strobj"]          # index keys are exotic there
-KEYMAPS_ALL = ["str", "sym", "idx", "idx7", "num7", "big", "neg0", "frac", "long", "uni"]      # num7: the key passed as the NUMBER 7 (integer-key paths)
+KEYMAPS_ALL = ["str", "strz", "strn", "sym", "idx", "idx7", "num7", "big", "neg0", "frac", "long", "uni"]      # num7: the key passed as the NUMBER 7 (integer-key paths); strz / strn: the abstract values are +0 / -0 resp. NaN / 0
 KEYMAPS_NONIDX = ["str", "sym", "big", "neg0", "frac", "uni"]
 
 
